@@ -40,6 +40,8 @@ class Flow:
                 pl = op["p"]
                 push(pl[0], tuple(x for x in pl[1:] if x != "*") + proj)
             else:
+                if "promoted" in op:
+                    out.add(("promoted", op["promoted"]))
                 if "def" in op:
                     out.add(("constdef", op["def"]))
                 if "fn" in op:
@@ -222,6 +224,40 @@ def const_args(call):
                 out.append(a["refv"])
             elif "bytes" in a:
                 out.append(bytes.fromhex(a["bytes"]))
+    return out
+
+
+def infeasible_try_edges(fn):
+    """`Err(e)?` / `None?`: the Continue edge after Try::branch of a value that is always built as Err/None can never be taken"""
+    fl = Flow(fn)
+    out = set()
+    for c in fn.calls():
+        if not c.is_(r"ops::try_trait::Try>?::branch$") or not c.args or "p" not in c.args[0]:
+            continue
+        l = c.args[0]["p"][0]
+        seen = set()
+        always_bad = None
+        work = [l]
+        while work:
+            x = work.pop()
+            if x in seen:
+                continue
+            seen.add(x)
+            ds = fl.defs.get(x, [])
+            if not ds:
+                always_bad = False
+            for (bi, si, k, p) in ds:
+                if k == "a" and p[1][0] == "agg" and p[1][1] == "adt" and p[1][3] in BAD_VARIANTS:
+                    if always_bad is None:
+                        always_bad = True
+                elif k == "a" and p[1][0] == "use" and "p" in p[1][1] and len(p[1][1]["p"]) == 1:
+                    work.append(p[1][1]["p"][0])
+                elif k == "call" and PASS_THROUGH.search(p.name) and p.args and "p" in p.args[0]:
+                    work.append(p.args[0]["p"][0])
+                else:
+                    always_bad = False
+        if always_bad:
+            out |= fl.result_edges(c)["good"]
     return out
 
 
